@@ -131,8 +131,10 @@ fn same_serde(a: &Value, b: &Value) -> bool {
 			if x == y {
 				return true;
 			}
-			let (bx, by) = (x.to_bits() as i128, y.to_bits() as i128);
-			(bx - by).abs() <= 1
+			// serde_json without `float_roundtrip` scales the mantissa by powers of ten in several rounded
+			// steps: a few ulps off for long mantissas with extreme exponents. Exact numeric agreement is
+			// the strict parser's job (above); here numbers only have to agree to 13 digits.
+			(x - y).abs() <= 1e-13 * x.abs().max(y.abs())
 		}
 		(Value::Array(x), Value::Array(y)) => x.len() == y.len() && x.iter().zip(y).all(|(p, q)| same_serde(p, q)),
 		(Value::Object(x), Value::Object(y)) => x.len() == y.len() && x.iter().all(|(k, v)| y.get(k).map(|w| same_serde(v, w)).unwrap_or(false)),
